@@ -5,11 +5,13 @@
 (* CompatMC; the real A.ValidateCompatibility(B) is run on each and every  *)
 (* pair that yielded ONE verdict is logged as a line                       *)
 (*                                                                         *)
-(*     {"a": AST, "b": AST, "mode": .., "verdict": "nil" | "err"}          *)
+(*     {"a": AST, "b": AST, "mode": .., "hist": .., "verdict": "nil"|"err"} *)
 (*                                                                         *)
 (* (pairs without a single verdict - panic, stack exhaustion, differing    *)
 (* verdicts across repetitions - contradict the property whatever the      *)
 (* model says and are reported by the orchestrator directly).  A line is   *)
+(* The history (which side parsed a unit-suffixed string before the call)  *)
+(* is recorded but never consulted: no verdict may depend on it.  A line is*)
 (* accepted iff its verdict is consistent with MustReject / MustAccept of  *)
 (* spec/Compat.tla.  JSON arrays arrive as sequences; Norm turns them into *)
 (* the sets the operators of Compat work on.                               *)
@@ -25,11 +27,11 @@ Range(s) == {s[i] : i \in DOMAIN s}
 
 RECURSIVE Norm(_)
 Norm(j) ==
-    CASE j.kind \in {"int", "float", "string"}    -> Scalar(j.kind, j.min, j.max)
+    CASE j.kind \in {"int", "float", "string"}    -> ScalarU(j.kind, j.min, j.max, j.units)
       [] j.kind \in {"bool", "pattern", "any"}     -> [kind |-> j.kind]
       [] j.kind \in {"enum_int", "enum_string"}    -> Enum(j.kind, Range(j.values), j.named)
-      [] j.kind = "list"   -> List(Norm(j.items), j.min, j.max)
-      [] j.kind = "map"    -> Map(Norm(j.keys), Norm(j.vals), j.min, j.max)
+      [] j.kind = "list"   -> ListI(Norm(j.items), j.min, j.max, j.impl)
+      [] j.kind = "map"    -> MapI(Norm(j.keys), Norm(j.vals), j.min, j.max, j.impl)
       [] j.kind = "object" -> ObjectI(j.id, {PropX(p.name, Norm(p.type), p.required, p.has_default, p.disabled) : p \in Range(j.props)},
                                       j.id_unenforced, j.impl)
       [] j.kind = "ref"    -> Ref(j.id)
